@@ -407,6 +407,29 @@ func runEffect(c *core.Ctx, keepEntry func(*ssa.Function) bool) {
 					}
 					return
 				}
+				// package-level sync.Map / sync.Pool: synchronised, so no data race on the container itself, but a
+				// process-wide cache reachable from a read-only operation hands the SAME stored object to every caller
+				// (shared mutable results) and makes a call's result depend on earlier calls
+				if f := sx.Callee(x); f != nil && f.Signature.Recv() != nil && len(x.Call.Args) >= 1 {
+					isMap, isPool := sx.IsNamed(f.Signature.Recv().Type(), "sync", "Map"), sx.IsNamed(f.Signature.Recv().Type(), "sync", "Pool")
+					if isMap || isPool {
+						if g, ok := rootOf(x.Call.Args[0]).(*ssa.Global); ok {
+							switch f.Name() {
+							case "Store", "LoadOrStore", "LoadAndDelete", "Delete", "Swap", "CompareAndSwap", "CompareAndDelete", "Put", "Get":
+								if isMap || f.Name() == "Put" || f.Name() == "Get" {
+									nStores++
+									kind := "sync.Map"
+									if isPool {
+										kind = "sync.Pool"
+									}
+									c.Fail(fmt.Sprintf("%s: %s.%s on package variable %s", load.FnName(fn), kind, f.Name(), g.Name()), x.Pos(),
+										"process-wide state ("+kind+" "+g.Name()+") is updated on a path reachable from a read-only operation: callers share whatever object is stored there (a report built for one caller is visible to, and mutated by, the next), and results depend on what ran before", via)
+								}
+							}
+						}
+						return
+					}
+				}
 				// package-level atomic state
 				f := sx.Callee(x)
 				if f == nil || load.FnPkg(f) == nil || load.FnPkg(f).Path() != "sync/atomic" || len(x.Call.Args) == 0 {
